@@ -18,7 +18,9 @@ class C05(Check):
             "markers, before/after filter, slice_head, select, rename, alias. Oracle: reference (stable multi-key sort "
             "with explicit null placement; window value per row; rows neither dropped nor reordered) vs Polars (exact "
             "sequence) and SQLite (sequence modulo ties); 10% of the cases are cum_sum over an ordering with tied keys, checked "
-            "with a validity predicate (the result is the running sum of one tie-consistent row order) on both backends. "
+            "with a validity predicate (the result is the running sum of one tie-consistent row order) on both backends; another "
+            "10% are rank / dense_rank over a nullable key without a nulls marker (position of nulls backend-dependent): the "
+            "result must be the ranks of one of the two placements. "
             "non-trivial = arrange with a tie on its first key or a null "
             "in a key, or a window function over >=2 partitions or with a descending / nulls marker, on >=4 rows")
     N = {"quick": 3000, "thorough": 100000}
@@ -55,8 +57,30 @@ class C05(Check):
             return {"tables": [tb], "steps": steps, "result": "v1", "ties": True}
 
         @st.composite
+        def unmarked_case(draw):
+            # rank / dense_rank over a nullable key *without* a nulls marker: where the nulls go is backend-dependent
+            # (DESIGN 4.6), but they go somewhere - every row gets the rank of one of the two placements
+            n = draw(st.integers(2, 9))
+            ks = draw(st.lists(st.sampled_from([0, 1, 1, 2, None, None]), min_size=n, max_size=n))
+            xs = draw(st.lists(st.integers(0, 2), min_size=n, max_size=n))
+            gs = draw(st.lists(st.sampled_from([1, 2]), min_size=n, max_size=n))
+            tb = {"name": "t0", "cols": [["id", "int64"], ["k", "int64"], ["x", "int64"], ["g", "int64"]],
+                  "rows": [[i + 1, ks[i], xs[i], gs[i]] for i in range(n)]}
+            arr = [[["col", {"c": "k"}], draw(st.booleans()), None, 0]]
+            if draw(st.integers(0, 2)) == 0:
+                arr.append([["col", {"c": "x"}], draw(st.booleans()), None, 0])
+            ctx = {"arrange": arr}
+            if draw(st.booleans()):
+                ctx["partition_by"] = [["col", {"c": "g"}]]
+            fn = draw(st.sampled_from(["rank", "dense_rank"]))
+            steps = [{"out": "v0", "verb": "source", "table": "t0"},
+                     {"out": "v1", "verb": "mutate", "in": "v0", "items": [["r", ["fn", fn, [], ctx]]]}]
+            return {"tables": [tb], "steps": steps, "result": "v1", "unmarked": True}
+
+        @st.composite
         def mixed(draw):
-            return draw(ties_case()) if draw(st.integers(0, 9)) == 0 else draw(base)
+            m = draw(st.integers(0, 9))
+            return draw(ties_case()) if m == 0 else draw(unmarked_case()) if m == 1 else draw(base)
 
         return mixed()
 
@@ -116,10 +140,58 @@ class C05(Check):
         out.nontrivial = len(set(ks)) < len(ks)
         return out
 
+    def _unmarked(self, case, out):
+        from .. import build
+
+        _, fn, _, ctx = case["steps"][1]["items"][0][1]
+        arr = ctx["arrange"]
+        part = bool(ctx.get("partition_by"))
+        out.classes.append("unmarked_nulls")
+        src = [dict(zip(("id", "k", "x", "g"), r)) for r in case["tables"][0]["rows"]]
+
+        def expected(placement):
+            def sk(r):
+                key = []
+                for (e, desc, _, _) in arr:
+                    v = r[e[1]["c"]]
+                    key.append((0 if placement == "first" else 2, 0) if v is None else (1, -v if desc else v))
+                return tuple(key)
+
+            exp = {}
+            for r in src:
+                peers = [q for q in src if not part or q["g"] == r["g"]]
+                before = [sk(q) for q in peers if sk(q) < sk(r)]
+                exp[r["id"]] = 1 + (len(before) if fn == "rank" else len(set(before)))
+            return exp
+
+        allowed = [expected("first"), expected("last")]
+        for kind in ("polars", "sqlite"):
+            b = build.build(case, kind, auto_alias=True)
+            try:
+                if b.error is not None:
+                    k, ex = b.error
+                    out.fail("internal-error", f"{kind}:unmarked:{type(ex).__name__}", f"{kind}: {type(ex).__name__}: {ex}")
+                    continue
+                df = build.export_polars(b.vars["v1"])
+                got = {r[0]: r[-1] for r in df.select("id", "r").rows()}
+                if sorted(got) != sorted(r["id"] for r in src) or len(got) != df.height:
+                    out.fail("mismatch", f"{kind}:unmarked:rows", f"{kind}: rows dropped or duplicated: {df.rows()}")
+                elif got not in allowed:
+                    out.fail("mismatch", f"{kind}:{fn}:unmarked-nulls",
+                             f"{kind}: {fn} over an unmarked nullable key is the rank of neither null placement: got {got}, "
+                             f"nulls first {allowed[0]}, nulls last {allowed[1]}")
+                out.count(f"unmarked_checked:{kind}")
+            finally:
+                b.backend.close()
+        out.nontrivial = any(r["k"] is None for r in src) and any(r["k"] is not None for r in src)
+        return out
+
     def examine(self, case) -> Outcome:
         out = Outcome()
         if case.get("ties"):
             return self._ties(case, out)
+        if case.get("unmarked"):
+            return self._unmarked(case, out)
         classify_case(case, out)
         run = examine_pipeline(case, out)
         nt = False
